@@ -256,13 +256,16 @@ func (l *LightClientAttackEvidence) GetByzantineValidators(commonVals *Validator
 		// Validator hashes are the same therefore the indexing order of validators are the same and thus we
 		// only need a single loop to find the validators that voted twice.
 		for i := 0; i < len(l.ConflictingBlock.Commit.Signatures); i++ {
+			// only signatures for the block count: they are the ones commit
+			// verification checked (slots flagged nil or absent are skipped
+			// there, so their content proves nothing about the validator)
 			sigA := l.ConflictingBlock.Commit.Signatures[i]
-			if sigA.Absent() {
+			if !sigA.ForBlock() {
 				continue
 			}
 
 			sigB := trusted.Commit.Signatures[i]
-			if sigB.Absent() {
+			if !sigB.ForBlock() {
 				continue
 			}
 
